@@ -10,24 +10,99 @@ SCHED = "./internal/dag/scheduler"
 COMMON_OUTSIDE = ["strings longer than the stated bound / non-ASCII bytes", "graphs with more steps than the stated N",
                   "everything behind an environment model (DESIGN.md section 3)"]
 
+RUN_STUBS = ["-stub", "(*@/internal/dag/scheduler.Node).setup=zero", "-stub", "(*@/internal/dag/scheduler.Node).teardown=zero",
+             "-stub", "@/internal/dag.EvalConditions=cond-eq"]
+RUN_ASSUME = ["RUN harness: steps run through a scripted executor registered with the real executor.Register; every scripted command eventually completes (completion order unrestricted, outcome nondet)",
+              "(*Node).setup/teardown stubbed to succeed (log files are C12's subject); dag.EvalConditions summarised exactly for literal conditions",
+              "threads are pre-empted only at yield points (mutex/RWMutex acquisition, Sleep, channel ops); at most D deviations from the round-robin base schedule; polling loops stutter-reduced",
+              "map iteration in insertion order; distinct step names"]
+RUN_OUTSIDE = ["more than D scheduling delays", "repeatPolicy (except where stated)", "real processes, signals and pipes", "retry interval > 0 is a plain yield (no real time)"]
+
+
+def run_ob(name, entry_q, dq, entry_t=None, dt=None, unwind=64, timeout_q=900, timeout_t=6000, bq=None, bt=None, must=None):
+    ob = {"name": name, "pkg": SCHED, "replay": "R1t", "labels_unordered": True,
+          "quick": {"entry": entry_q, "flags": ["-unwind", str(unwind), "-delays", str(dq)] + RUN_STUBS, "timeout_s": timeout_q,
+                    "bounds": dict({"D": dq, "unwind": unwind}, **(bq or {})), "sample_paths": 2}}
+    if entry_t:
+        ob["thorough"] = {"entry": entry_t, "flags": ["-unwind", str(unwind), "-delays", str(dt)] + RUN_STUBS, "timeout_s": timeout_t,
+                          "bounds": dict({"D": dt, "unwind": unwind}, **(bt or {})), "sample_paths": 2}
+    if must:
+        ob["must_assert"] = must
+    return ob
+
+
 PROPS = {
     "C01": {
         "obligations": [
             {"name": "C01.gate", "pkg": SCHED, "replay": "R1",
              "quick": {"entry": "VerifHarness_C01_gate3", "flags": ["-unwind", "16"], "bounds": {"N": 3}},
              "thorough": {"entry": "VerifHarness_C01_gate4", "flags": ["-unwind", "16"], "bounds": {"N": 4}}},
+            run_ob("C01.run", "VerifHarness_RUN_C01_n3", 0, "VerifHarness_RUN_C01_n3r2", 1, bq={"N": 3, "R": 1}, bt={"N": 3, "R": 2},
+                   must=["C01.run/dependency-finished-its-last-attempt"]),
+            run_ob("C01.run-d1", "VerifHarness_RUN_C01_n2", 1, "VerifHarness_RUN_C01_n2x", 2, bq={"N": 2, "R": 1}, bt={"N": 2, "R": 1, "menu": "extended"},
+                   must=["C01.run/dependency-finished-its-last-attempt"]),
         ],
-        "assumptions": ["distinct step names", "acyclic DAG (C14 owns the cyclic case)"],
-        "outside_claim": COMMON_OUTSIDE,
+        "assumptions": ["distinct step names", "acyclic DAG (C14 owns the cyclic case)"] + RUN_ASSUME,
+        "outside_claim": COMMON_OUTSIDE + RUN_OUTSIDE,
+    },
+    "C02": {
+        "obligations": [
+            {"name": "C02.gate", "pkg": SCHED, "replay": "R1", "must_assert": ["C02.gate/blocked-dependent-is-marked"],
+             "quick": {"entry": "VerifHarness_C01_gate3", "flags": ["-unwind", "16"], "bounds": {"N": 3}},
+             "thorough": {"entry": "VerifHarness_C01_gate4", "flags": ["-unwind", "16"], "bounds": {"N": 4}}},
+            run_ob("C02.final", "VerifHarness_RUN_C02_n3", 0, "VerifHarness_RUN_C02_n3x", 1, bq={"N": 3, "R": 1}, bt={"N": 3, "R": 2, "menu": "extended"},
+                   must=["C02.final/blocked-step-never-executed", "C02.final/unblocked-step-was-executed"]),
+            run_ob("C02.final-d1", "VerifHarness_RUN_C02_n2", 1, "VerifHarness_RUN_C02_n2x", 2, bq={"N": 2, "R": 1}, bt={"N": 2, "R": 1, "menu": "extended"},
+                   must=["C02.final/blocked-step-never-executed"]),
+        ],
+        "assumptions": ["distinct step names", "acyclic DAG", "the run is not stopped"] + RUN_ASSUME,
+        "outside_claim": COMMON_OUTSIDE + RUN_OUTSIDE,
+    },
+    "C03": {
+        "obligations": [
+            run_ob("C03.count", "VerifHarness_RUN_C03_n3", 0, "VerifHarness_RUN_C03_n3r2", 1, bq={"N": 3, "R": 1}, bt={"N": 3, "R": 2},
+                   must=["C03.count/failing-step-is-retried-until-limit", "C03.count/recorded-retry-count-equals-extra-attempts"]),
+            run_ob("C03.count-d1", "VerifHarness_RUN_C03_n2", 1, "VerifHarness_RUN_C03_n2x", 2, bq={"N": 2, "R": 2}, bt={"N": 2, "R": 2, "menu": "extended"},
+                   must=["C03.count/failing-step-is-retried-until-limit"]),
+            run_ob("C03.dry", "VerifHarness_RUN_C03_dry3", 0, "VerifHarness_RUN_C03_dry3", 1, bq={"N": 3}, bt={"N": 3},
+                   must=["C03.dry/no-step-command-in-dry-run", "C03.dry/no-handler-command-in-dry-run"]),
+        ],
+        "assumptions": ["distinct step names", "acyclic DAG", "the run is not stopped"] + RUN_ASSUME,
+        "outside_claim": COMMON_OUTSIDE + RUN_OUTSIDE + ["dry-run through agent.Run (no history written): not built yet; C03.dry covers Scheduler.Schedule with Dry=true"],
     },
     "C04": {
         "obligations": [
             {"name": "C04.status", "pkg": SCHED, "replay": "R1",
              "quick": {"entry": "VerifHarness_C04_status3", "flags": ["-unwind", "16"], "bounds": {"N": 3}},
              "thorough": {"entry": "VerifHarness_C04_status4", "flags": ["-unwind", "16"], "bounds": {"N": 4}}},
+            run_ob("C04.run", "VerifHarness_RUN_C04_n2", 0, "VerifHarness_RUN_C04_n3", 0, bq={"N": 2, "R": 1, "handlers": "every subset", "stop": "at quiescent points"}, bt={"N": 3, "R": 1},
+                   must=["C04.handlers/matching-handler-runs-exactly-once", "C04.handlers/exit-handler-runs-last", "C04.inv/failed-step-implies-last-error"]),
+            run_ob("C04.run-d1", "VerifHarness_RUN_C04_n2s", 1, "VerifHarness_RUN_C04_n2", 1, bq={"N": 2, "R": 0, "handlers": "every subset", "stop": "at any yield point"}, bt={"N": 2, "R": 1},
+                   must=["C04.handlers/matching-handler-runs-exactly-once"]),
         ],
-        "assumptions": ["end-of-run pre-state constrained by invariant J (DESIGN C04), which is asserted on the threaded run harness"],
-        "outside_claim": COMMON_OUTSIDE + ["handler time-outs, mail side effects"],
+        "assumptions": ["C04.status: end-of-run pre-state constrained by invariant J (DESIGN C04), which is asserted on the threaded run harness (C04.inv/*)",
+                        "a stop that arrives after every step has ended does not define the outcome; stopped-and-failed may be labelled canceled or failed"] + RUN_ASSUME,
+        "outside_claim": COMMON_OUTSIDE + RUN_OUTSIDE + ["handler time-outs, mail side effects", "DAG-level preconditions through agent.Run (C04.precond): not built yet"],
+    },
+    "C05": {
+        "obligations": [
+            run_ob("C05.stop", "VerifHarness_RUN_C05_n3", 0, "VerifHarness_RUN_C05_n3", 1, bq={"N": 3, "R": 1, "stop": "at quiescent points"}, bt={"N": 3, "R": 1, "stop": "at any yield point"},
+                   must=["C05.nolaunch/no-step-command-starts-after-stop-accepted", "C05.stop/stopped-run-ends-canceled"]),
+            run_ob("C05.stop-d1", "VerifHarness_RUN_C05_n2", 1, "VerifHarness_RUN_C05_n2h", 1, bq={"N": 2, "R": 1, "stop": "at any yield point"}, bt={"N": 2, "R": 1, "handlers": "every subset"},
+                   must=["C05.nolaunch/no-step-command-starts-after-stop-accepted"]),
+        ],
+        "assumptions": ["every scripted process exits when it receives the stop signal or on its own (processes that ignore the signal: C05.escalate, not built)"] + RUN_ASSUME,
+        "outside_claim": COMMON_OUTSIDE + RUN_OUTSIDE + ["timeout expiry (C05.timeout) and force-kill escalation after MaxCleanUpTime (C05.escalate): not built yet", "repeating steps"],
+    },
+    "C15": {
+        "obligations": [
+            run_ob("C15.run", "VerifHarness_RUN_C15_n3", 0, "VerifHarness_RUN_C15_n4", 0, bq={"N": 3, "R": 1, "k": "0..N+1"}, bt={"N": 4, "R": 0, "k": "0..N+1"},
+                   must=["C15.run/at-most-k-steps-executing"]),
+            run_ob("C15.run-d1", "VerifHarness_RUN_C15_n2", 1, "VerifHarness_RUN_C15_n3", 1, bq={"N": 2, "R": 1, "k": "0..N+1"}, bt={"N": 3, "R": 1},
+                   must=["C15.run/at-most-k-steps-executing"]),
+        ],
+        "assumptions": ["a step counts as executing while its label is 'running' (includes waiting out a retry interval)", "termination for every k: every path must end with Schedule returned (deadlock/livelock are violations)"] + RUN_ASSUME,
+        "outside_claim": COMMON_OUTSIDE + RUN_OUTSIDE,
     },
     "C10": {
         "obligations": [
